@@ -128,3 +128,17 @@ def _v16(repo, mod):
     fn = repo.func(TU, "given_exception_matches")
     r = find_node(fn, lambda n: isinstance(n, ast.Return) and isinstance(n.value, ast.Call))
     return replace_node(mod, r, "matches = issubclass(err, exc)\n    return matches")
+
+
+@variant("C03", "reset-keeps-old-import-trace", TR, "C03.fresh", "reset() re-initialises the recording trace before it discards the import trace (seed C03-c)")
+def _v17(repo, mod):
+    fn = repo.func(TR, "ExecutionTracer.reset")
+    a, b = fn.body[-2], fn.body[-1]
+    return replace_nodes(mod, [(a, mod.segment(b)), (b, mod.segment(a))])
+
+
+@variant("C03", "init-trace-reuses-recording-trace", TR, "C03.fresh", "init_trace merges the import trace into the current trace instead of a new one")
+def _v18(repo, mod):
+    fn = repo.func(TR, "ExecutionTracer.init_trace")
+    s = find_stmt(fn, lambda s: isinstance(s, ast.Assign) and norm(s.targets[0]) == "new_trace")
+    return replace_node(mod, s.value, "self._thread_local_state.trace")
